@@ -67,7 +67,9 @@ def run(res, tier, seed):
              ("gac_pod", "noaa14", 60, "clean-drift"), ("lac_pod", "noaa14", 40, "clean-drift"),
              ("gac_klm", "noaa19", 1300, "clean"),   # a pass of more than 1024 lines
              # a record transmitted twice (same line number): one copy flagged, the other clean
-             ("gac_klm", "noaa18", 60, "repeated"), ("lac_pod", "noaa14", 40, "repeated")]
+             ("gac_klm", "noaa18", 60, "repeated"), ("lac_pod", "noaa14", 40, "repeated"),
+             # the only flagged line of the pass is its first one
+             ("gac_klm", "noaa17", 40, "firstonly"), ("gac_pod", "noaa12", 40, "firstonly")]
     if tier == "thorough":
         plans = [(f, s, n * 6 if n < 1000 else n, k) for f, s, n, k in plans] + [("gac_klm", "metopa", 600, "clean"), ("gac_pod", "noaa14", 600, "clean"), ("gac_klm", "noaa19", 4300, "clean"),
                                                              ("lac_pod", "noaa11", 90, "wrapped"), ("lac_klm", "metopc", 90, "dropped")]
@@ -88,6 +90,9 @@ def run(res, tier, seed):
             if pattern == "wrapped":
                 k = rng.randrange(3, n - 3)
                 numbers = list(range(n - k + 1, n + 1)) + list(range(1, n - k + 1))
+            elif pattern == "firstonly":
+                keepmask = sum(1 << b for b in MASKBITS[fam])
+                qs = [1 << rng.choice(MASKBITS[fam])] + [q & ~keepmask for q in qs[1:]]
             elif pattern == "repeated":
                 j = rng.randrange(5, n - 5)
                 numbers = numbers[:j + 1] + numbers[j:n - 1]          # number j twice, still n records
